@@ -332,7 +332,7 @@ def _rebound_between(fn, name, site, use) -> bool:
     s_st, u_st = _stmt_of(site), _stmt_of(use)
     if s_st is None or u_st is None:
         return True
-    lo, hi = s_st.lineno, getattr(u_st, "end_lineno", u_st.lineno)
+    lo, hi = s_st.lineno, u_st.lineno      # (statements are numbered sequentially; a compound statement reads its header first)
     for t, st in b[name]:
         if lo < st.lineno <= hi and st is not u_st:
             return True
